@@ -500,6 +500,16 @@ func (g *hGen) mutate() {
 			g.nps[k] = np
 			objs = append(objs, g.obj("NetworkPolicy", np))
 		}
+		if r.chance(1, 3) && len(g.nps) > 0 {
+			// a batch that fails half-way: a policy name that is already taken comes last among the
+			// policies, so what precedes it (namespaces, fresh policies) is applied and the pods are not
+			k := pick(r, sortedKeys(g.nps))
+			ns, name := splitKey(k)
+			objs = append(objs, g.obj("NetworkPolicy", g.mkNetpol(ns, name)))
+			n := pick(r, hNS[:g.nsN])
+			g.nss[n] = true
+			objs = append(objs, g.obj("Namespace", g.mkNamespace(n)))
+		}
 		g.add("setResources", objs...)
 	case 11:
 		g.pods, g.nps, g.anps, g.nss, g.banp = map[string]*corev1.Pod{}, map[string]*netv1.NetworkPolicy{}, map[string]*apisv1a.AdminNetworkPolicy{}, map[string]bool{}, false
@@ -943,13 +953,13 @@ func runC15(tier string, seed uint64) int {
 			bad = append(bad, i)
 		}
 	}
-	reported := 0
+	reported, tried := 0, 0
 	for _, i := range bad {
 		o := &outs[i]
 		if o.f.class == "model" {
 			infra("C15: history %d: %s", i, o.f.desc)
 		}
-		if reported >= 4 {
+		if reported >= 4 || tried >= 8 {
 			fmt.Printf("note: %d further failing histories not minimised\n", len(bad)-reported)
 			break
 		}
@@ -962,6 +972,8 @@ func runC15(tier string, seed uint64) int {
 		}
 		if rp.violation(rep) {
 			reported++
+		} else if knownFinding(rp.findings, rep.Property, rep.Sig) == nil {
+			tried++ // a repeat of a signature already reported in this run (listed findings never count)
 		}
 	}
 	var samples []interface{}
